@@ -21,17 +21,27 @@
  *           (b) with the caller's max_data_bytes for the two packets at the switch just below what compute_redundancy_bytes()
  *           needs, so the same switch comes WITHOUT redundancy; plus the switch right after a DTX period and right after a lost
  *           packet (len 0 -> decode(NULL); PCM of those streams is advisory, PLC being non-normative).
+ *   LEVEL   what the decoder resets or keeps across a switch (silk_decoder_set_fs: LastGainIndex, lagPrev, prevSignalType, outBuf,
+ *           sLPC state, first_frame_after_reset; opus_decode_frame: prev_mode, redundancy; CELT: oldBandE, post-filter, de-emphasis
+ *           memory) only shows when the SIGNAL changes across the switch. Every transition kind - the 306 TRANS pairs (20 ms), the
+ *           448 SWITCH kinds (variants with / without redundancy, both directions), SILK internal-rate switches forced downwards at a
+ *           chosen packet by the caller's max_data_bytes (< 8000 / < 7000 b/s -> 12 / 8 kHz at once), and the SILK encoder's own
+ *           NB<->MB<->WB switches after OPUS_SET_BANDWIDTH - is encoded twice: a probe pass at constant level finds the packet K at
+ *           which the (mode,bandwidth,channels) triple actually changes; the second pass applies a level schedule around that packet
+ *           boundary: loud->quiet (-30 dB, -50 dB), quiet(-50 dB)->loud, loud->30 ms of digital silence->loud, with the step 25/15/5 ms
+ *           before and 5/15/25 ms after the boundary. The stream counts as "met" only if the switch is still at packet K.
  */
 #ifndef C03_STREAMS_H
 #define C03_STREAMS_H
 #include "corpus.h"
 
-enum { FAM_CFG=0, FAM_TRANS, FAM_REFRAME, FAM_FEAT, FAM_SWITCH, FAM_N };
-static const char *const fam_name[FAM_N]={"cfg","trans","reframe","feat","switch"};
+enum { FAM_CFG=0, FAM_TRANS, FAM_REFRAME, FAM_FEAT, FAM_SWITCH, FAM_LEVEL, FAM_N };
+static const char *const fam_name[FAM_N]={"cfg","trans","reframe","feat","switch","level"};
 
 typedef struct { ccfg k; int nframes; int sig; int maxbytes; /* 0: ample */ int lose_last; /* replace the segment's last packet by a loss */ } sseg;
 typedef struct { int fs, ch, app; uint32_t seed; int nseg; sseg seg[12];
-                 int fec, dtx, cbr, cvbr, complexity, pred_dis, phinv_dis, lsb; } sdesc;
+                 int fec, dtx, cbr, cvbr, complexity, pred_dis, phinv_dis, lsb;
+                 int lv_on; long lv_t0,lv_t1; float lv_g0,lv_gmid,lv_g1; /* gain g0 before sample t0, gmid in [t0,t1), g1 from t1 on */ int lv_trunc; } sdesc;
 
 typedef struct { unsigned char fam, cfg, stereo, ridx, sig, a, b, variant; unsigned short ms; } sitem;
 
@@ -67,7 +77,7 @@ static const char *triple_name(int t){ static const char *const n[9]={"silk-nb",
 
 /* ---- run the frozen encoder over a description ---- */
 static void s_encode(corpus *c,const char *name,const sdesc *d){
-   int err,s,i,sid,cursig=-1; OpusEncoder *e=ref_opus_encoder_create(d->fs,d->ch,d->app,&err); siggen g; short *pcm; unsigned char out[4000];
+   int err,s,i,sid,cursig=-1; long pos=0; OpusEncoder *e=ref_opus_encoder_create(d->fs,d->ch,d->app,&err); siggen g; short *pcm; unsigned char out[4000];
    if(!e){ fprintf(stderr,"streams: encoder_create failed %d\n",err); exit(2); }
    sid=corpus_new_stream(c,name,d->fs,d->ch);
    pcm=malloc(sizeof(short)*d->ch*(d->fs/8+8));
@@ -84,6 +94,8 @@ static void s_encode(corpus *c,const char *name,const sdesc *d){
       if (sg->sig!=cursig){ sig_init(&g,sg->sig,d->fs,d->ch,d->seed); cursig=sg->sig; }
       for(i=0;i<sg->nframes;i++){ int n; opus_uint32 rng=0;
          sig_gen(&g,pcm,fsz);
+         if (d->lv_on){ int q,cc; for(q=0;q<fsz;q++){ long t=pos+q; float gn=t<d->lv_t0?d->lv_g0:(t<d->lv_t1?d->lv_gmid:d->lv_g1); if(gn!=1.0f) for(cc=0;cc<d->ch;cc++) pcm[q*d->ch+cc]=(short)lrintf(pcm[q*d->ch+cc]*gn); } }
+         pos+=fsz;
          n=ref_opus_encode(e,pcm,fsz,out,sg->maxbytes?sg->maxbytes:(int)sizeof out);
          if(n<0){ fprintf(stderr,"streams: frozen encoder failed %d (%s)\n",n,name); exit(2); }
          ref_opus_encoder_ctl(e,OPUS_GET_FINAL_RANGE(&rng));
@@ -146,6 +158,37 @@ enum { SW_TO_CELT=0, SW_TO_CELT_CAP, SW_FROM_CELT, SW_FROM_CELT_CAP, SW_DTX_TO_C
 static int sw_cap(int dur_x10,int ch){ int fr=10000/dur_x10, base=40*ch+20, lim=4+8*ch, m; for(m=400;m>8;m--){ int avail=m*8-2*base; if((avail*240/(240+48000/fr)+base)/8<=lim) break; } return m-2; }
 static int frames_for(int ms,int dur_x10){ int n=(ms*10+dur_x10-1)/dur_x10; return n<2?2:n; }
 
+/* ---- LEVEL: probe pass + level schedule around the packet where the (mode,bandwidth,channels) triple changes ---- */
+static struct { int lv, met, K, prev_tr, new_tr, rate_switch; } LVI;   /* what the last item_make() observed (read by the harness for the evidence counters) */
+static int s_triple(int toc){ return (rfc_mode(toc)*5+rfc_bandwidth(toc))*2+rfc_channels(toc)-1; }
+static int s_silk_khz(int toc){ int m=rfc_mode(toc); return m==2?0:(m==1?16:(rfc_bandwidth(toc)==0?8:rfc_bandwidth(toc)==1?12:16)); }
+static int first_change(const corpus *c,long fs,long *tK,int *ptoc,int *ntoc){ int i,first=-1; long t=0;
+   for(i=0;i<c->n;i++){ const cpkt *k=&c->p[i]; if(k->len){ if(first<0) first=k->data[0]; else if(s_triple(k->data[0])!=s_triple(first)){ *tK=t; *ptoc=first; *ntoc=k->data[0]; return i; } } t+=(long)k->dur48*fs/48000; }
+   return -1; }
+static const int LV_OFF_MS[6]={-25,-15,-5,5,15,25};
+#define LV_Q30 0.0316227766f
+#define LV_Q50 0.00316227766f
+static void lv_encode(corpus *c,const char *nm,sdesc *d,int lv){
+   corpus p1; int K,K2,sched,off,pt=0,nt=0,pt2=0,nt2=0; long tK=0,tK2=0,t0;
+   memset(&LVI,0,sizeof LVI);
+   if (!lv){ s_encode(c,nm,d); return; }
+   sched=(lv-1)/6; off=(lv-1)%6; LVI.lv=lv;
+   /* pass 1: constant level (the level the schedule has BEFORE its step) */
+   d->lv_on=1; d->lv_t0=d->lv_t1=0; d->lv_g0=d->lv_gmid=d->lv_g1 = sched==2?LV_Q50:1.0f;
+   memset(&p1,0,sizeof p1); s_encode(&p1,nm,d); K=first_change(&p1,d->fs,&tK,&pt,&nt); corpus_free(&p1);
+   if (d->lv_trunc){ int before=0,s; for(s=0;s+1<d->nseg;s++) before+=d->seg[s].nframes; d->seg[d->nseg-1].nframes = K>=0 ? K-before+8 : 30; if(d->seg[d->nseg-1].nframes<2) d->seg[d->nseg-1].nframes=2; }
+   if (K<0){ s_encode(c,nm,d); LVI.K=-1; return; }
+   t0=tK+(long)LV_OFF_MS[off]*d->fs/1000; if(t0<0) t0=0;
+   d->lv_t0=t0; d->lv_t1=t0; d->lv_g0=1.0f; d->lv_gmid=1.0f; d->lv_g1=1.0f;
+   if (sched==0) d->lv_g1=LV_Q30; else if (sched==1) d->lv_g1=LV_Q50; else if (sched==2){ d->lv_g0=LV_Q50; } else { d->lv_gmid=0.0f; d->lv_t1=t0+(long)30*d->fs/1000; }
+   s_encode(c,nm,d); K2=first_change(c,d->fs,&tK2,&pt2,&nt2);
+   LVI.K=K; LVI.met=(K2==K && s_triple(nt2)==s_triple(nt)); LVI.prev_tr=s_triple(pt); LVI.new_tr=s_triple(nt);
+   LVI.rate_switch = s_silk_khz(pt)&&s_silk_khz(nt)&&s_silk_khz(pt)!=s_silk_khz(nt);
+}
+/* special LEVEL kinds: SILK internal-rate switches */
+#define LVK_N 14
+static const char *const lvk_name[7]={"cap wb->mb","cap wb->nb","cap mb->nb","own nb->mb","own mb->wb","own wb->mb","own mb->nb"};
+
 static void item_name(const sitem *it,char *nm,int n){
    ccfg k;
    switch(it->fam){
@@ -154,6 +197,9 @@ static void item_name(const sitem *it,char *nm,int n){
    case FAM_REFRAME: snprintf(nm,n,"reframe %s of cfg%02d %s r%d %s %dms",rv_name[it->variant],it->cfg,it->stereo?"stereo":"mono",it->ridx,sig_name[grid_sig(it->sig,it->stereo)],it->ms); break;
    case FAM_SWITCH: { static const char *const vn[SW_N]={"A->celt","A->celt capped","celt->A","celt->A capped","A,dtx->celt","A,loss->celt","celt,loss->A"}; static const char *const dn[4]={"2.5","5","10","20"};
       snprintf(nm,n,"switch %s: A=cfg%02d %s, celt %s ms, %s",vn[it->variant],it->a,it->stereo?"stereo":"mono",dn[it->b],sig_name[grid_sig(it->sig,it->stereo)]); } break;
+   case FAM_LEVEL: { static const char *const sn[4]={"loud->-30dB","loud->-50dB","-50dB->loud","loud->30ms silence->loud"}; sitem b=*it; char bn[120]; int lv=it->ridx;
+      if (it->cfg==FAM_LEVEL) snprintf(bn,sizeof bn,"silk rate %s %s",lvk_name[it->a%7],it->stereo?"stereo":"mono"); else { b.fam=it->cfg; b.cfg=0; b.ridx=0; item_name(&b,bn,sizeof bn); }
+      snprintf(nm,n,"level %s step %+d ms | %s",sn[(lv-1)/6],LV_OFF_MS[(lv-1)%6],bn); } break;
    default: snprintf(nm,n,"feat %s %s %s %dms",ft_name[it->variant],it->stereo?"stereo":"mono",sig_name[grid_sig(it->sig,it->stereo)],it->ms); break;
    }
 }
@@ -164,10 +210,12 @@ static void trans_durs(int variant,int a,int b,int *da,int *db){
    default: *da = (a%9)<3?600:((a%9)>=5?50:200); *db = (b%9)<3?400:((b%9)>=5?25:100); break; }
 }
 
-static void item_make(const sitem *it,corpus *c){
-   sdesc d; char nm[160]; ccfg k; int ch=it->stereo?2:1;
+static void item_make(const sitem *it0,corpus *c){
+   sdesc d; char nm[200]; ccfg k; sitem bi=*it0; const sitem *it=it0; int lv=0, ch=it0->stereo?2:1;
    memset(&d,0,sizeof d); memset(c,0,sizeof *c); d.fs=48000; d.complexity=-1; d.seed=1+it->cfg*131u+it->a*17u+it->b*7u+it->variant*3u+it->sig;
    item_name(it,nm,sizeof nm);
+   if (it0->fam==FAM_LEVEL){ lv=it0->ridx; bi.fam=it0->cfg; bi.cfg=0; bi.ridx=0; it=&bi; }
+   memset(&LVI,0,sizeof LVI);
    if (it->fam==FAM_CFG || it->fam==FAM_REFRAME){
       corpus base; corpus *dst = it->fam==FAM_CFG? c : &base; int v=it->variant;
       cfg_to_ccfg(it->cfg,&k); k.ch_force=ch; k.bitrate=cfg_bitrate(k.mode,k.bw,ch,it->ridx);
@@ -194,7 +242,7 @@ static void item_make(const sitem *it,corpus *c){
       triple_to_ccfg(it->a,da,&d.seg[0].k); triple_to_ccfg(it->b,db,&d.seg[1].k);
       d.seg[0].nframes=frames_for(it->ms/2,da); d.seg[1].nframes=frames_for(it->ms/2,db); d.seg[0].sig=d.seg[1].sig=grid_sig(it->sig,1);
       if (it->variant==5){ d.seg[0].nframes=15; d.seg[1].nframes=frames_for(it->ms-300,db); }
-      s_encode(c,nm,&d);
+      lv_encode(c,nm,&d,lv);
    } else if (it->fam==FAM_SWITCH){
       static const int cd[4]={25,50,100,200}, cbw[4]={BWN,BWW,BWS,BWF};
       int v=it->variant, durB=cd[it->b], sg=grid_sig(it->sig,it->stereo), nA,nB,to_celt=(v==SW_TO_CELT||v==SW_TO_CELT_CAP||v==SW_DTX_TO_CELT||v==SW_LOSS_TO_CELT), n=0;
@@ -218,7 +266,16 @@ static void item_make(const sitem *it,corpus *c){
          d.seg[n++]=sa;
       }
       d.nseg=n;
-      s_encode(c,nm,&d);
+      lv_encode(c,nm,&d,lv);
+   } else if (it->fam==FAM_LEVEL){
+      /* SILK internal-rate switches. a%7: 0..2 forced downwards at segment 1 by the caller's max_data_bytes (effective rate < 8000 b/s -> 12 kHz,
+         < 7000 b/s -> 8 kHz, taken at once by silk_control_audio_bandwidth); 3..6 the SILK encoder's own switch after OPUS_SET_BANDWIDTH
+         (found by the probe pass; the stream is cut 8 packets after it) */
+      static const int from[7]={BWW,BWW,BWM,BWN,BWM,BWW,BWM}, to[7]={BWW,BWW,BWM,BWM,BWW,BWM,BWN}, cap[7]={19,17,17,0,0,0,0};
+      int kd=it->a%7; ccfg A; memset(&A,0,sizeof A); A.mode=REF_MODE_SILK_ONLY; A.bw=from[kd]; A.dur_x10=200; A.ch_force=ch; A.bitrate=cfg_bitrate(A.mode,A.bw,ch,1);
+      d.ch=ch; d.app=OPUS_APPLICATION_VOIP; d.nseg=2; d.seg[0].k=A; d.seg[0].nframes=kd<3?8:10; d.seg[0].sig=grid_sig(it->sig,it->stereo);
+      d.seg[1]=d.seg[0]; d.seg[1].k.bw=to[kd]; d.seg[1].maxbytes=cap[kd]; d.seg[1].nframes=kd<3?8:320; d.lv_trunc=kd>=3;
+      lv_encode(c,nm,&d,lv);
    } else {
       int v=it->variant, sg=grid_sig(it->sig,it->stereo), ms=it->ms; ccfg a; memset(&a,0,sizeof a);
       d.ch=ch; d.app=OPUS_APPLICATION_VOIP; d.nseg=1; d.seg[0].sig=sg;
@@ -264,9 +321,11 @@ static void item_make(const sitem *it,corpus *c){
  *           FEAT all x {mono,stereo} x 1 signal
  * thorough: CFG 64 x 3 bitrates x 6 signals, 1 s; TRANS 306 x 5 schedules x 2 signals, 0.4 s; REFRAME 64 x variants x 3 bitrates;
  *           FEAT all x {mono,stereo} x 3 signals
+ * LEVEL   : quick 306 TRANS pairs x 5 schedule points + 448 SWITCH kinds x 2 + 6 forced SILK rate kinds x 24 + 8 own-switch kinds x 4;
+ *           thorough: every kind x all 24 points
  * both    : SWITCH 16 SILK/hybrid configs x 4 CELT durations x {mono,stereo} x 7 variants (quick 568 streams, speech-like; thorough also multitone)
  */
-typedef struct { int cfg_rates, cfg_sigs, cfg_ms, trans_scheds, trans_sigs, trans_ms, ref_rates, ref_ms, feat_sigs, feat_ms, silkbw_ms, switch_sigs; } grid_t;
+typedef struct { int cfg_rates, cfg_sigs, cfg_ms, trans_scheds, trans_sigs, trans_ms, ref_rates, ref_ms, feat_sigs, feat_ms, silkbw_ms, switch_sigs, level_full; } grid_t;
 static sitem *ITEMS; static int NITEMS;
 static void items_add(const sitem *it){ static int cap; if(NITEMS==cap){ cap=cap?cap*2:1024; ITEMS=realloc(ITEMS,cap*sizeof(sitem)); } ITEMS[NITEMS++]=*it; }
 static void items_build(const grid_t *G){
@@ -293,5 +352,18 @@ static void items_build(const grid_t *G){
       if (v==SW_TO_CELT_CAP && b<2) continue;                                   /* below 10 ms there is never redundancy: same stream as SW_TO_CELT */
       if ((v==SW_DTX_TO_CELT||v==SW_LOSS_TO_CELT||v==SW_LOSS_FROM_CELT) && k.dur_x10!=200) continue;
       memset(&it,0,sizeof it); it.fam=FAM_SWITCH; it.a=a; it.b=b; it.variant=v; it.stereo=st; it.sig=s; it.ms=0; items_add(&it); }
+   /* LEVEL: lv = 1 + schedule*6 + offset index (schedules: 0 loud->-30 dB, 1 loud->-50 dB, 2 -50 dB->loud, 3 loud->30 ms silence->loud;
+      offsets -25,-15,-5,+5,+15,+25 ms). thorough: all 24 points for every kind; quick: the points listed per kind class. Signal: multitone. */
+   { static const unsigned char q_trans[5]={1+0*6+0,1+1*6+1,1+1*6+3,1+2*6+1,1+3*6+1}, q_switch[2]={1+1*6+1,1+2*6+1}, q_own[4]={1+1*6+1,1+1*6+0,1+2*6+1,1+3*6+1}; int p,np;
+     np=G->level_full?24:5;
+     for(a=0;a<NTRIPLE;a++) for(b=0;b<NTRIPLE;b++) if(a!=b) for(p=0;p<np;p++){
+        memset(&it,0,sizeof it); it.fam=FAM_LEVEL; it.cfg=FAM_TRANS; it.a=a; it.b=b; it.variant=0; it.sig=1; it.stereo=1; it.ms=G->trans_ms; it.ridx=G->level_full?1+p:q_trans[p]; items_add(&it); }
+     np=G->level_full?24:2;
+     for(v=0;v<=SW_FROM_CELT_CAP;v++) for(a=0;a<16;a++) for(b=0;b<4;b++) for(st=0;st<2;st++) for(p=0;p<np;p++){
+        if (v==SW_TO_CELT_CAP && b<2) continue;
+        memset(&it,0,sizeof it); it.fam=FAM_LEVEL; it.cfg=FAM_SWITCH; it.a=a; it.b=b; it.variant=v; it.stereo=st; it.sig=1; it.ridx=G->level_full?1+p:q_switch[p]; items_add(&it); }
+     for(a=0;a<7;a++) for(st=0;st<2;st++){ np=(a<3||G->level_full)?24:4;
+        for(p=0;p<np;p++){ memset(&it,0,sizeof it); it.fam=FAM_LEVEL; it.cfg=FAM_LEVEL; it.a=a; it.stereo=st; it.sig=1; it.ridx=np==24?1+p:q_own[p]; items_add(&it); } }
+   }
 }
 #endif
